@@ -156,10 +156,8 @@ func (m *ModuleInstance) ensureResourcesClosed(ctx context.Context) (err error) 
 	}
 
 	if mem := m.MemoryInstance; mem != nil {
-		if mem.expBuffer != nil {
-			mem.expBuffer.Free()
-			mem.expBuffer = nil
-		}
+		// The memory may be shared with other open instances through imports.
+		mem.releaseUser()
 	}
 
 	if m.CodeCloser != nil {
